@@ -199,7 +199,7 @@ def audit(audit_file, allow_axioms=(), timeout=600):
             n_ax_blocks += 1
             continue
         if inax:
-            m = re.match(r"^([A-Za-z_][\w.']*)\s*:", line)
+            m = re.match(r"^([A-Za-z_][\w.']*)\s*(:|$)", line)
             if m:
                 axioms.add(m.group(1))
             elif line.startswith(" ") or line.strip() == "":
